@@ -82,6 +82,10 @@ pub fn times(rng: &mut Rng, random: usize) -> Vec<NaiveTime> {
             }
         }
     }
+    for (i, f) in fraction_groups().into_iter().enumerate() {      // digit groups of the fraction (also on a leap second now and then)
+        let secs = [0u32, 45_296, 86_399][i % 3];
+        if let Some(x) = mk(|| NaiveTime::from_num_seconds_from_midnight_opt(secs, if i % 7 == 2 { f + 1_000_000_000 } else { f })) { v.push(x); }
+    }
     for _ in 0..random {
         let secs = rng.range(0, 86_399) as u32;
         let digits = rng.below(10) as u32;              // fraction with a random number of significant digits
